@@ -354,16 +354,17 @@ def c07_parser_reuse_full (reset : Bool) : Prop :=
     getDocOpt reset (runParses reset hist {}) f = getDocOpt reset {} f
 
 open NmlVerif.ParserReuse in
-/-- the repaired parser (`parse` starts from the attributes of a new parser) satisfies it -/
+/-- **today's parser** (`reset = true`: since `fixes/C07-parser-builder-reuse.patch` `parse` starts from the
+    attributes of a new parser) satisfies it -/
 theorem c07_parser_reuse_repaired : c07_parser_reuse_full true := by
   intro hist f
   simp [popCompObjs, getDocOpt, parse]
 
 open NmlVerif.ParserReuse in
-/-- **today's parser does not**: after a file with embedded XML, a file written with `embed_xml=False` gets the first
+/-- **the parser before the repair did not** (`reset = false`, kept as the reason for the repair): after a file with embedded XML, a file written with `embed_xml=False` gets the first
     file's component object for its population (and, optimized, the first file's components in its document); after a
     file with a network, a file without one returns the first file's network instead of raising -/
-theorem c07_parser_reuse_today_witness : ¬ c07_parser_reuse_full false := by
+theorem c07_parser_reuse_unrepaired_witness : ¬ c07_parser_reuse_full false := by
   intro h
   have := (h [⟨"docA", some [("cell0", "IzhikevichCell:cell0")], some "netA", [("pop0", "cell0")]⟩]
     ⟨"docC", none, some "netC", [("pop0", "cell0")]⟩).1
@@ -371,7 +372,7 @@ theorem c07_parser_reuse_today_witness : ¬ c07_parser_reuse_full false := by
   decide
 
 open NmlVerif.ParserReuse in
-/-- **what holds today**: a file that carries its embedded XML and has a network group (what
+/-- **what held before the repair**: a file that carries its embedded XML and has a network group (what
     `NeuroMLHdf5Writer.write` produces by default for a document with a network) is parsed the same way whatever the
     parser object has parsed before — any history, any state -/
 theorem c07_parser_reuse_partial (st : PState) (f : H5File) (he : f.embedded.isSome) (hn : f.network.isSome) :
@@ -396,7 +397,8 @@ def c07_builder_reuse_full (reset : Bool) : Prop :=
   ∀ (hist cs : List HCall) (id : String) (notes : Option String),
     view (brunR reset (.docStart id notes :: cs) (brunR reset hist {})) = view (brunR reset (.docStart id notes :: cs) {})
 
-/-- the repaired builder (`handle_document_start` forgets `self.network` and the seven tables) satisfies it -/
+/-- **today's builder** (`reset = true`: `handle_document_start` forgets `self.network` and the seven tables)
+    satisfies it -/
 theorem c07_builder_reuse_repaired : c07_builder_reuse_full true := by
   intro hist cs id notes
   simp [brunR, bstepR, HCall.isDocStart]
@@ -407,10 +409,10 @@ def witReuse1 : List HCall := [.docStart "A" none, .network "netA" none none, .p
 /-- second document of the witness: a location for a population that this document never declares -/
 def witReuse2 : List HCall := [.network "netB" none none, .location "0" "pop" (some ("0.0", "0.0", "0.0"))]
 
-/-- **today's builder does not**: after a document that declares population `pop`, a document with a dangling
+/-- **the builder before the repair did not** (`reset = false`): after a document that declares population `pop`, a document with a dangling
     reference to `pop` is accepted silently (the instance lands in the OLD document's population) instead of raising
     `KeyError` -/
-theorem c07_builder_reuse_today_witness : ¬ c07_builder_reuse_full false := by
+theorem c07_builder_reuse_unrepaired_witness : ¬ c07_builder_reuse_full false := by
   intro h
   have := h witReuse1 witReuse2 "B" none
   revert this
